@@ -1,4 +1,4 @@
-from . import rules_rep, inputs
+from . import rules_rep, rules_list, inputs
 from spec import geometry as G
 
 
@@ -30,6 +30,7 @@ def run(ctx, prog, facts, tier):
     I = inputs.make_interp(prog, fuel=40000000)
     ms = modes(tier)
     rules_rep.check_c06(ctx, prog, I, ms)
+    rules_list.check_list(ctx, prog, I, 'C06')
     ctx.floor('C06 modes', ctx.analysed.get('c06_modes', 0), len(ms))
     ctx.exhaustive = False
     ctx.assumptions += ['NOT decided: that hash equality coincides with board equality; the capture / forgetting clause as behaviour']
